@@ -421,6 +421,13 @@ public:
     Index compute(SortRule selection = SortRule::LargestMagn, Index maxit = 1000,
                   Scalar tol = 1e-10, SortRule sorting = SortRule::LargestMagn)
     {
+        // An unsupported sorting rule is rejected before the iteration changes anything,
+        // not only by the final sort
+        if ((sorting != SortRule::LargestMagn) && (sorting != SortRule::LargestReal) &&
+            (sorting != SortRule::LargestImag) && (sorting != SortRule::SmallestMagn) &&
+            (sorting != SortRule::SmallestReal) && (sorting != SortRule::SmallestImag))
+            throw std::invalid_argument("unsupported sorting rule");
+
         // The m-step Arnoldi factorization
         // After init() the factorization has one step; if compute() is called again
         // without init(), it already has m_ncv steps and the iteration simply continues
